@@ -130,3 +130,21 @@ Theorem C14_removed_keys_on_generated_code :
              (K_ovm_finishPubkeysChangeProposals (ovm_state [p1; p2] [] [0; 1; 2; 3] 200)) = Some ([8; 9; 10; 11], [1; 1]).
 Proof. exact d10_on_generated_code. Qed.
 Print Assumptions C14_removed_keys_on_generated_code.
+
+(* the vote handler, msg_server_vote.go VotePubkeysChange (with ProposalVotePayload.Validate and NewVote), generated over the state it reaches
+   (does the ticket verify and under which key, the payload it carries, the key vault, the active proposals): voter index inside the vault,
+   ticket signed by exactly the key at that index, vote yes or no, an active proposal with that id, no earlier vote of the same key, and
+   then exactly that vote appended to exactly that proposal — the clauses of the model's ovm_vote, read on the active proposals *)
+Theorem C14_vote_generated : forall tok tkey pid vote vault act creator ticket idx, 0 <= idx ->
+  K_vote_msgVotePubkeysChange (vote_state tok tkey pid vote vault act) (vmsg creator ticket idx) =
+  if zlen vault <=? idx then None else
+  let key := nth (Z.to_nat idx) vault (-1) in
+  if negb (tok && (tkey =? key)) then None
+  else if negb ((vote =? VOTE_YES) || (vote =? VOTE_NO)) then None
+  else match find (fun p => pp_id p =? pid) act with
+       | None => None
+       | Some p => if existsb (fun v => fst v =? key) (pp_votes p) then None
+                   else Some (vote_state tok tkey pid vote vault (upd (fun q => pp_id q =? pid) (with_vote p key vote) act))
+       end.
+Proof. exact gen_vote. Qed.
+Print Assumptions C14_vote_generated.
